@@ -344,7 +344,10 @@ PROPS["C15"] = dict(
                "applied to every implementation observation; proved: atomicity of failures, the area identities of swap and cut (C15_swap_conserves_area, C15_cut_conserves_area), "
                "and for ALL maps the well-formedness clause of swap and of both cuts (C15_swap_keeps_wf2, "
                "C15_cut_outer_keeps_wf2, C15_cut_inner_keeps_wf2, Map2/KernWf.v) -- about programs REGENERATED from swap.rs / cut.rs on "
-               "every run (tools/tr_kern.py, C15_kernels_are_the_source); collapse: well-formedness per observation",
+               "every run (tools/tr_kern.py, C15_kernels_are_the_source); and the exact images after a swap and after both cuts "
+               "(C15_swap_is_other_diagonal, C15_cut_outer_topology, C15_cut_inner_topology, Map2/SwapTopo.v: the two triangles "
+               "l->d->a and r->b->c after a swap, the two resp. four triangles after a cut with their gluing, every other image "
+               "untouched -- so triangles stay triangles and the neighbourhood keeps its adjacency); collapse: per observation",
     technique="Coq model of the kernels + correspondence + extracted Coq specification (exact arithmetic) as per-run validator",
     families=[
         Family("kern-remesh", "core2", r_kern("remesh", 1200, 20000, 8), 1, [(9, "remesh_spec", REM_CLASSES)]),
